@@ -124,7 +124,8 @@ def main():
             rc, out = sh("bin/check %s --tier %s" % (prop, tier), cwd=VERIF, env=env, timeout=7200)
             res["check_rc"] = rc
             res["check_wall_s"] = round(time.time() - t0, 1)
-            res["check_verdict_lines"] = [l for l in out.split("\n") if l.startswith("VIOLATION") or l.startswith("KNOWN-FINDING")][:8]
+            vl = [l for l in out.split("\n") if l.startswith("VIOLATION")]
+            res["check_verdict_lines"] = vl[:6] + [l[:200] for l in out.split("\n") if l.startswith("KNOWN-FINDING")][:6]
             res["check_tail"] = out[-1500:]
     finally:
         for d in (wt, wtp):
